@@ -1,5 +1,5 @@
 SPECIFICATION Spec
 CONSTANTS
   NP = 67
-INVARIANTS Inv_Symmetry Inv_MulAgrees Emit
+INVARIANTS Inv_Symmetry Inv_MulAgrees Inv_BigAgrees Emit
 CHECK_DEADLOCK FALSE
